@@ -43,6 +43,21 @@ def key_of(o):
 
 def run(ctx):
     an = run_cfg(ctx, "dev", first=True)
+    # the second clause: a returned value, formatted, parses back to itself - decided as value -> text -> value over every value
+    from . import textrules, fenrules
+    facts = ctx.facts("dev")
+    ctx.decided += [
+        "P2 (round trip of returned values) every value a parser can return is written by its formatter as a text the parser reads back "
+        "as the same value: tabulated through the Display/FromStr models for uci::Move (P2u), san::Move (P2s), Coord/Cell/Color/"
+        "CastlingRights (P2t) and, for FEN, the five scalar fields end to end (P2f) with the piece placement as writer/reader automata "
+        "(P2w, P2r) - the parsers return only such values (a raw board read from text always has its mark on the rank for its side)",
+    ]
+    textrules.uci_text_rule(ctx, facts, "P2u", ctx.tier == "thorough")
+    textrules.san_text_rule(ctx, facts, "P2s", ctx.tier == "thorough")
+    textrules.types_text_rule(ctx, facts, "P2t")
+    fenrules.fields_rule(ctx, facts, "P2f", False)
+    fenrules.writer_rule(ctx, facts, "P2w")
+    fenrules.reader_rule(ctx, facts, "P2r")
     if ctx.tier == "thorough":
         # optimised build: no overflow or debug assertions, arithmetic wraps - the explicit panics and std preconditions remain
         run_cfg(ctx, "release", first=False)
@@ -62,7 +77,7 @@ def run_cfg(ctx, cfg, first):
         "P0 every external (std) callee reachable from a parser is classified total / partial-with-model (fail closed on a new one)",
     ]
     ctx.not_decided += [
-        "the round-trip clause (formatting a parsed value parses back): C09/C10 decide its structural part; allocation failure",
+        "allocation failure; the UCI move *list* round trip is the per-move one (P2u) plus the separator rule C17/W4",
         "position-dependent stages are analysed under the listed assumptions (A-KING, A-UNFINISHED) and the invariants checked by "
         "C06 (well-formed moves), C11 (validator) and C15 (magic offsets)",
     ]
